@@ -37,6 +37,13 @@ def run(ctx):
     ctx.rule("R-SIB", "every filter list of the container is consulted")
     ctx.rule("R-FLOW", "operand provenance")
     check_handwritten_serializers(ctx, f)
+    K.check_base64_engines(ctx, f)
+    ctx.rule("R-WHO", "a limit is tested only where the value is built")
+    K.check_limit_owners(ctx, f, "rtr::pdu::ProviderAsns::MAX_COUNT",
+                         ["repository::aspa::ProviderAsSet::take_from", "rtr::pdu::ProviderAsns::try_from_iter"])
+    from props.C13 import check_covers_family
+    ctx.rule("R-GRD", "success requires the guard")
+    check_covers_family(ctx, f)
 
     # ---- C15.b decision tables ---------------------------------------------------
     cov = "Prefix::covers(self.prefix↓Some.0, MaxLenPrefix::prefix(origin.prefix))"
